@@ -91,7 +91,7 @@ def wouldTruncate (t : IntTy) (N D : Nat) (x : Int) : Bool :=
   match categorize N D with
   | .intMul => false
   | .intDiv => truncationChecker x (gvInt t D)
-  | .rational => truncationChecker x (gvInt t D)
+  | .rational => truncationChecker x (gvInt t.promote D)   -- checked in the promoted type (fix of F8)
 
 /-- `is_conversion_lossy(q, unit)` (no change of rep). -/
 def isLossy (t : IntTy) (N D : Nat) (x : Int) : Bool :=
@@ -130,5 +130,45 @@ def applyMag (t : IntTy) (N D : Nat) (x : Int) : ApplyResult :=
       let q := divIn p v D
       finish t ⟨q.val, s.wrapped || q.wrapped⟩
     | .ub w => ⟨.ub w, s.wrapped, false⟩
+
+end Au
+
+namespace Au
+open IntTy
+
+/-! ### Certificates: interval / modulus descriptions of the checkers, used by the exhaustive
+correspondence sweeps.  `AuProofs.Lemmas.Cert` proves they describe the pointwise functions. -/
+
+/-- The set of in-range `x` on which `wouldOverflow` is false, as a closed interval. -/
+def okInterval (t : IntTy) (N D : Nat) : Int × Int :=
+  match categorize N D with
+  | .intMul =>
+    match gvInt t N with
+    | some mv => (Int.tdiv t.lo mv, Int.tdiv t.hi mv)
+    | none => (0, 0)
+  | .intDiv => (t.lo, t.hi)
+  | .rational => (if t.signed then minNonOverflowing t N D else t.lo, maxNonOverflowing t N D)
+
+/-- How `wouldTruncate` depends on `x`. -/
+inductive TruncKind where
+  | never
+  | modulus (d : Int)      -- truncates iff `x % d ≠ 0`
+  | nonzero                -- truncates iff `x ≠ 0`
+deriving Repr, DecidableEq
+
+def truncKind (t : IntTy) (N D : Nat) : TruncKind :=
+  match categorize N D with
+  | .intMul => .never
+  | .intDiv => match gvInt t D with
+    | some d => .modulus d
+    | none => .nonzero
+  | .rational => match gvInt t.promote D with
+    | some d => .modulus d
+    | none => .nonzero
+
+def TruncKind.eval : TruncKind → Int → Bool
+  | .never, _ => false
+  | .modulus d, x => decide (Int.tmod x d ≠ 0)
+  | .nonzero, x => decide (x ≠ 0)
 
 end Au
